@@ -540,6 +540,7 @@ main(int argc, char **argv)
 	 **********************************************/
 	/* handle the --tree option, if enabled */
 	    if( esl_opt_IsOn(go, "--tree")) {
+	      if(msa->nseq < 2) esl_fatal("--tree requires an alignment of at least 2 sequences, alignment %d has %d\n", nali, msa->nseq);
 	  /* Create distance matrix and infer tree by single linkage clustering */
 	      esl_dst_XDiffMx(msa->abc, msa->ax, msa->nseq, &D);
 	      esl_tree_SingleLinkage(D, &T);
